@@ -76,7 +76,7 @@ CHECKS = {
         "digits per the two-scan rule; component combination is XOR (permutation-invariant, duplicates cancel) and renders "
         "as 32 hex digits (Props/C14.lean). Tied to /repo by differential execution with real keys found for second-scan "
         "classes 0..2(3), chosen ciphertexts through a cipher stub for classes 3..4, key-component lists, KCV and encrypted "
-        "ZMK, all against a from-scratch DES/3DES reference. In addition a SOURCE TIE: harness/pytrans.py translates the current Python text of pinblock._get_tsp, the decimalisation at the end of calculate_pvv and the combination loop of key.get_zone_master_key (fragments around the cipher calls) into Lean (Gen/Src.lean) on every run and lean/Cardutil/SrcTie/Misc.lean and Pin.lean prove, for all inputs, that the translation equals the model (and restates the property for the translated code); when the source changes so that this no longer checks, the check runs its thorough generators before answering (the correspondence remains the deciding tie).",
+        "ZMK, all against a from-scratch DES/3DES reference. In addition a SOURCE TIE: harness/pytrans.py translates the current Python text of pinblock._get_tsp, the decimalisation at the end of calculate_pvv and the combination loop of key.get_zone_master_key (fragments around the cipher calls) into Lean (Gen/Src.lean) on every run and lean/Cardutil/SrcTie/Misc.lean and Pin.lean prove, for all inputs, that the translation equals the model (and restates the property for the translated code); the WHOLE functions calculate_kcv, encrypt_key, get_zone_master_key, get_enc_zone_master_key and calculate_pvv are translated too, their calls into the cipher library as ONE external function, and lean/Cardutil/SrcTie/Keys.lean proves them equal to the model for any cipher function and, instantiated with the Triple DES of Model/Des.lean, restates the property for the functions as written (C14_source_kcv, C14_source_pvv, C14_source_zone_master_key); when the source changes so that this no longer checks, the check runs its thorough generators before answering (the correspondence remains the deciding tie).",
         "Trusted: as C13 (the PVV and KCV values are now computed by the model with its own Triple DES — Model/Des.lean, C14_pvv_tdes — and compared with the implementation's); the cipher stub replaces `Cipher` inside cardutil.pinblock only for the chosen-ciphertext cases.",
         "DESIGN.md §8 C14"),
     'C15': (
